@@ -80,10 +80,12 @@ def bound(ctx, prog):
             continue
         l = op_local(t["on"])
         d = single_def(f, l) if l is not None else None
-        if d and d[2] == "assign" and d[3]["rv"]["k"] == "bin" and d[3]["rv"]["op"] == "Eq":
+        if d and d[2] == "assign" and d[3]["rv"]["k"] == "bin" and d[3]["rv"]["op"] in ("Eq", "Lt", "Le"):
             sa = flatten_src(provenance(f, d[3]["rv"]["a"]))
             kb = op_const(d[3]["rv"]["b"])
-            if kb is not None and kb.get("v") == 0 and any(s.kind == "call" and s.path.endswith("free_slots") for s in sa):
+            # `len == 0`, `len < 1`, `len <= 0` all mean "no free slot"
+            zero_test = kb is not None and ((d[3]["rv"]["op"] in ("Eq", "Le") and kb.get("v") == 0) or (d[3]["rv"]["op"] == "Lt" and kb.get("v") == 1))
+            if zero_test and any(s.kind == "call" and s.path.endswith("free_slots") for s in sa):
                 true_t = t["otherwise"]
                 r = reachable(f, (true_t,))
                 builds = False
